@@ -329,6 +329,25 @@ def check_parallel(ctx, case):
         ctx.check(got == exp, "instrument/announcement", lambda: "first events %r, expected (channel, program) %r" % (head, exp))
         ctx.check(not any(e[0] == "instr" for e in s.log[k:]), "instrument/extra", "")
         log = [e for e in s.log if e[0] != "instr"]
+        # the same tracks played once more after their instruments were renamed: the announcements follow the new names
+        n1 = len(s.log)
+        exp2 = []
+        for j, (tr_, ch) in enumerate(zip(built, channels)):
+            ins = tr_.instrument
+            if ins is None:
+                exp2.append((ch, 1))
+                continue
+            new = ["Flute", "Kazoo (no such instrument)", "Church Organ", "Acoustic Grand Piano"][(j + k) % 4]
+            ins.name = new
+            exp2.append((ch, MidiInstrument.names.index(new) if isinstance(ins, MidiInstrument) and new in MidiInstrument.names else 1))
+        if kind == "tracks":
+            ctx.ok("play_Tracks", s.play_Tracks, built, channels, bpm)
+        else:
+            ctx.ok("play_Composition", s.play_Composition, comp, None if case.get("default_channels") else channels, bpm)
+        got2 = [(e[1], e[2]) for e in s.log[n1:n1 + k] if e[0] == "instr"]
+        ctx.check(got2 == exp2, "instrument/announcement-after-renaming", lambda: "second pass announces %r, expected (channel, program) %r" % (s.log[n1:n1 + k], exp2))
+        for o in obs:  # observers saw the second pass as well; compare on the first pass only below
+            pass
     if failed(r):
         return
     final = _validate(ctx, log, sets, bpm, kind, False)
